@@ -16,7 +16,7 @@ EXPLANATION = ('Forward: the real mj_EulerSkip runs on a symbolic state whose co
                'that it returns the original continuous-time acceleration - so that mj_inverse reproduces the forward forces - for EVERY combination of mjDSBL_EULERDAMP / mjDSBL_DAMPER, damping coefficients, damping polynomials, '
                'masses, velocities, forces and timestep. Forward constraint stage: the real static warmstart() with an island structure and a non-identity map_idof2dof - dofs that belong to no island (which no per-island solver writes) must leave it with '
                'the unconstrained acceleration qacc_smooth, for which inverse dynamics returns zero constraint force; island dofs all start from the same candidate.')
-BOUNDS = {'quick': {'nv': '1..2 slide joints, diagonal inertia', 'integrator': 'Euler', 'warmstart': 'nv 3..4, one island, island maps (2,0,3,1)/2 and (1,2,0)/1, Newton/CG branch'}, 'thorough': {'nv': '1..3', 'warmstart': 'five island maps up to nv = 5'}}
+BOUNDS = {'quick': {'nv': '1..3 slide joints, diagonal inertia', 'integrator': 'Euler', 'warmstart': 'five island maps up to nv = 5 (island sizes 1..3), Newton/CG branch'}, 'thorough': {'nv': '1..4', 'warmstart': '+ island of 4 of 5 dofs, nv = 6 with an island of 3, an empty island map'}}
 OUTSIDE = ('agreement of constraint forces (needs a converged forward solve: mj_invConstraint vs the solvers - iterative numerics); implicit / implicitfast discrete conversion (mjd_smooth_vel derivative assembly); coupled inertia '
            '(the LTDL factorisation is taken as given: its contract belongs to C06); qfrc_inverse assembly in mj_inverseSkip; mjd_effShift (effective-metric shift refresh, stubbed out); in the warmstart units mj_mulJacVec, mj_constraintUpdate and mj_mulM are stubs returning solver-chosen values (the claim is about which acceleration each dof leaves with, not about the costs), PGS branch of warmstart.')
 ASSUMPTIONS = ['real-number semantics', 'M diagonal with positive entries, qLD = M, qLDiagInv = 1/M', 'damping coefficients and polynomial coefficients non-negative', 'mj_sleep returns 0, sleep disabled, mjcb_time not installed',
@@ -190,7 +190,8 @@ def unit_warmstart(tier, perm, nidof):
 
 
 def units(tier):
-    u = [('euler_discrete_nv%d' % nv, 'unit_euler_inverse', {'nv': nv}) for nv in ([1, 2] if tier == 'quick' else [1, 2, 3])]
-    for perm, nidof in ([((2, 0, 3, 1), 2), ((1, 2, 0), 1)] if tier == 'quick' else [((2, 0, 3, 1), 2), ((1, 2, 0), 1), ((3, 1, 0, 2), 3), ((0, 1, 2), 2), ((4, 2, 0, 3, 1), 2)]):
+    u = [('euler_discrete_nv%d' % nv, 'unit_euler_inverse', {'nv': nv}) for nv in ([1, 2, 3] if tier == 'quick' else [1, 2, 3, 4])]
+    base = [((2, 0, 3, 1), 2), ((1, 2, 0), 1), ((3, 1, 0, 2), 3), ((0, 1, 2), 2), ((4, 2, 0, 3, 1), 2)]
+    for perm, nidof in (base if tier == 'quick' else base + [((4, 2, 0, 3, 1), 4), ((1, 5, 3, 0, 2, 4), 3), ((0, 2, 1), 0)]):
         u.append(('warmstart_%s_n%d' % (''.join(map(str, perm)), nidof), 'unit_warmstart', {'perm': perm, 'nidof': nidof}))
     return u
